@@ -1171,7 +1171,12 @@ class Translator:
         out += slines
         for nm in order:
             out += bodies[nm]
-        out += ['def translatedFunctions : List String := [%s]' % ', '.join('"%s"' % n for n in order), '', 'end LLTD.T', '']
+        out += ['def translatedFunctions : List String := [%s]' % ', '.join('"%s"' % n for n in order), '']
+        out += ['/-- what the translation ASSUMES per function: pointer parameters non-NULL and not aliasing each other; the pointer members listed',
+                '    here present (their pointees are the extra parameters), callbacks counted -/',
+                'def assumedPresent : List (String × List String) := [%s]' % ', '.join(
+                    '("%s", [%s])' % (f.name, ', '.join('"%s"' % a for a in sorted(f.assumed_present))) for f in fns if f.assumed_present),
+                '', 'end LLTD.T', '']
         return '\n'.join(out)
 
 
